@@ -4,7 +4,7 @@
 
 use crate::common::*;
 use crate::driver::{harness_error, Env};
-use crate::findings::{describe, first_difference, multiset, with_positions, NF};
+use crate::findings::{multiset_exact, describe, first_difference, multiset, with_positions, NF};
 use crate::gen::{self, Knobs, Layout, Project, ProjectShape, Registry, Style};
 use crate::minimise::minimise_case;
 use crate::outparse::parse_stdout;
@@ -30,18 +30,26 @@ fn build(seed: u64, i: usize) -> Built {
     let mut r_proj = base.sub("project");
     let mut r_style = base.sub("style");
     let mut r_plan = base.sub("plan");
-    let knobs = Knobs::random(&mut r_proj);
-    let shape = ProjectShape { max_files: 3, max_defs: 6, with_main: true, pragma_always: false, name_suffix: String::new() };
+    let mut knobs = Knobs::random(&mut r_proj);
+    let mut shape = ProjectShape { max_files: 3, min_defs: 1, max_defs: 6, with_main: true, pragma_always: false, name_suffix: String::new() };
+    // sizes: now and then a project with many small definitions that instantiate each other
+    // (whatever is cached, pooled or numbered per run meets more than a handful of entries)
+    if i % 40 == 7 {
+        shape.min_defs = 100;
+        shape.max_defs = 100 + base.sub("size").usize(60);
+        knobs.max_stmts = knobs.max_stmts.min(4);
+        knobs.components = true;
+    }
     let mut project = gen::gen_project(&mut r_proj, &knobs, &shape);
     // name more files than the default, so that several definitions are analysed
-    if r_proj.chance(1, 2) {
+    if r_proj.chance(1, 2) || shape.min_defs > 1 {
         project.named = (0..project.files.len()).collect();
     }
     // a second package in a sub-directory: same file names, same include strings, other files
     if r_proj.chance(1, 4) {
         let mut k2 = Knobs::random(&mut r_proj);
         k2.circomlib_names = false;
-        let shape2 = ProjectShape { max_files: 2, max_defs: 3, with_main: false, pragma_always: false, name_suffix: "Q".into() };
+        let shape2 = ProjectShape { max_files: 2, min_defs: 1, max_defs: 3, with_main: false, pragma_always: false, name_suffix: "Q".into() };
         let q = gen::gen_project(&mut r_proj, &k2, &shape2);
         let off = project.files.len();
         for mut f in q.files {
@@ -133,6 +141,8 @@ fn one(runner: &Runner, seed: u64, i: usize, keys: usize) -> Res {
     };
     let Some(o0) = run(&b.base, &mut res) else { return res };
     let m0 = multiset(&parse_stdout(&o0.stdout), &b.world);
+    // where the text of the files is the same in both runs, generated names must agree too
+    let x0 = multiset_exact(&parse_stdout(&o0.stdout), &b.world);
     res.findings = m0.len();
     let mut orders: BTreeSet<String> = BTreeSet::new();
     orders.insert(analysing_order(&o0));
@@ -143,7 +153,7 @@ fn one(runner: &Runner, seed: u64, i: usize, keys: usize) -> Res {
     let mut rerun: Option<(Vec<NF>, bool)> = None;
     if i % 8 == 0 {
         if let Some(o1) = run(&b.base, &mut res) {
-            let m1 = multiset(&parse_stdout(&o1.stdout), &b.world);
+            let m1 = multiset_exact(&parse_stdout(&o1.stdout), &b.world);
             let identical = o1.stdout == o0.stdout && o1.sarif == o0.sarif && o1.events == o0.events;
             rerun = Some((m1, identical));
         }
@@ -168,8 +178,8 @@ fn one(runner: &Runner, seed: u64, i: usize, keys: usize) -> Res {
     };
 
     if let Some((m1, identical)) = rerun {
-        if m1 != m0 {
-            report("rerun", "the same files, options, hash key and clock, run twice".into(), &b.base, &b.base, &m0, &m1, &mut res);
+        if m1 != x0 {
+            report("rerun", "the same files, options, hash key and clock, run twice".into(), &b.base, &b.base, &x0, &m1, &mut res);
         } else if !identical {
             res.byte_differences += 1;
         }
@@ -180,10 +190,10 @@ fn one(runner: &Runner, seed: u64, i: usize, keys: usize) -> Res {
         c.plan.clockseed = r_keys.next_u64();
         c.plan.aslr = true;
         if let Some(o) = run(&c, &mut res) {
-            let m = multiset(&parse_stdout(&o.stdout), &b.world);
+            let m = multiset_exact(&parse_stdout(&o.stdout), &b.world);
             *res.relations.entry("clock-and-aslr").or_default() += 1;
-            if m != m0 {
-                report("clock-aslr", "same hash key, different clock seed and address-space layout".into(), &b.base, &c, &m0, &m, &mut res);
+            if m != x0 {
+                report("clock-aslr", "same hash key, different clock seed and address-space layout".into(), &b.base, &c, &x0, &m, &mut res);
             }
         }
     }
@@ -195,10 +205,10 @@ fn one(runner: &Runner, seed: u64, i: usize, keys: usize) -> Res {
         res.keys_tried += 1;
         if let Some(o) = run(&c, &mut res) {
             orders.insert(analysing_order(&o));
-            let m = multiset(&parse_stdout(&o.stdout), &b.world);
+            let m = multiset_exact(&parse_stdout(&o.stdout), &b.world);
             *res.relations.entry("hash-order").or_default() += 1;
-            if m != m0 {
-                report("hash-order", "same files and options, different hash key".into(), &b.base, &c, &m0, &m, &mut res);
+            if m != x0 {
+                report("hash-order", "same files and options, different hash key".into(), &b.base, &c, &x0, &m, &mut res);
                 break;
             }
         }
@@ -239,10 +249,10 @@ fn one(runner: &Runner, seed: u64, i: usize, keys: usize) -> Res {
         let mut c = make_case(&p, b.world.clone(), &Opts::base(), b.base.plan.clone());
         c.plan = b.base.plan.clone();
         if let Some(o) = run(&c, &mut res) {
-            let m = multiset(&parse_stdout(&o.stdout), &b.world);
+            let m = multiset_exact(&parse_stdout(&o.stdout), &b.world);
             *res.relations.entry("reorder-files").or_default() += 1;
-            if m != m0 {
-                report("reorder-files", "input files given in another order".into(), &b.base, &c, &m0, &m, &mut res);
+            if m != x0 {
+                report("reorder-files", "input files given in another order".into(), &b.base, &c, &x0, &m, &mut res);
             }
         }
     }
@@ -397,8 +407,10 @@ fn differs(runner: &Runner, a: &Case, b: &Case) -> Option<String> {
     if crashed(&oa) || crashed(&ob) {
         return None;
     }
-    let ma = multiset(&parse_stdout(&oa.stdout), &a.world);
-    let mb = multiset(&parse_stdout(&ob.stdout), &b.world);
+    let same_text = a.world == b.world;
+    let ms = |o: &Outcome, w: &World| if same_text { multiset_exact(&parse_stdout(&o.stdout), w) } else { multiset(&parse_stdout(&o.stdout), w) };
+    let ma = ms(&oa, &a.world);
+    let mb = ms(&ob, &b.world);
     let d = first_difference(&ma, &mb);
     d.as_ref()?;
     Some(diff_key(&d))
@@ -510,8 +522,10 @@ pub fn replay(env: &Env, v: &Value) -> i32 {
     let runner = Runner::new(&env.bin, &env.shim, &env.scratch, 0);
     let oa = runner.run(&a).unwrap_or_else(|e| harness_error(&e));
     let ob = runner.run(&b).unwrap_or_else(|e| harness_error(&e));
-    let ma = multiset(&parse_stdout(&oa.stdout), &a.world);
-    let mb = multiset(&parse_stdout(&ob.stdout), &b.world);
+    let same_text = a.world == b.world;
+    let ms = |o: &Outcome, w: &World| if same_text { multiset_exact(&parse_stdout(&o.stdout), w) } else { multiset(&parse_stdout(&o.stdout), w) };
+    let ma = ms(&oa, &a.world);
+    let mb = ms(&ob, &b.world);
     println!("relation: {}", v["relation"]);
     if v["relation"] == "frame-add" || v["relation"] == "frame-remove" {
         println!("(frame relations compare per-definition findings; rerun the check with the same VERIF_SEED to re-judge)");
